@@ -31,6 +31,13 @@ struct Sink {
 }
 
 impl Sink {
+    /// Makes everything written so far durable (a command may abort the whole process).
+    fn sync(&mut self) {
+        self.model_in.flush().unwrap();
+        self.impl_out.flush().unwrap();
+        self.raw.flush().unwrap();
+    }
+
     fn new(prefix: &str) -> Sink {
         Sink {
             exec: Exec::new(),
@@ -45,6 +52,7 @@ impl Sink {
 
     fn feed(&mut self, raw: String) {
         writeln!(self.raw, "{raw}").unwrap();
+        self.sync();
         let Some(sx) = sexp::parse(&raw) else {
             panic!("generator produced an unparsable line: {raw}");
         };
@@ -71,63 +79,121 @@ impl Sink {
     }
 }
 
+/// One shard, in its own process (an allocation failure or a stack overflow in the code under test
+/// aborts the process: the parent then knows which command was running).
+fn run_shard(suite: &str, seed: u64, thorough: bool, out: &str, shard: usize, shards: usize) {
+    let prefix = format!("{out}/{suite}.{shard}");
+    let mut sink = Sink::new(&prefix);
+    let tier = gen::Tier { thorough };
+    {
+        let mut emit = |line: String| sink.feed(line);
+        match suite {
+            "pair" => gen::gen_pair(seed, &tier, shard, shards, &mut emit),
+            "apply" => gen::gen_apply(seed, &tier, shard, shards, &mut emit),
+            "node" => gen::gen_node(seed, &tier, shard, shards, &mut emit),
+            "wire" => gen::gen_wire(seed, &tier, shard, shards, &mut emit),
+            "fd" => gen::gen_fd(seed, &tier, shard, shards, &mut emit),
+            "server" => gen::gen_server(seed, &tier, shard, shards, &mut emit),
+            "udp" => gen::gen_udp(seed, &tier, shard, shards, &mut emit),
+            "select" => gen::gen_select(seed, &tier, shard, shards, &mut emit),
+            "listener" => gen::gen_listener(seed, &tier, shard, shards, &mut emit),
+            "cluster" => gen::gen_cluster(seed, &tier, shard, shards, &mut emit),
+            "catchup" => gen::gen_catchup(seed, &tier, shard, shards, &mut emit),
+            "mtu" => gen::gen_mtu(seed, &tier, shard, shards, &mut emit),
+            _ => usage(),
+        }
+    }
+    {
+        let mut mf = File::create(format!("{prefix}.monitor")).unwrap();
+        for h in &sink.exec.hits {
+            // add the shard to the record
+            let h = h.replacen('{', &format!("{{\"shard\": {shard}, "), 1);
+            writeln!(mf, "{h}").unwrap();
+        }
+    }
+    sink.sync();
+    *sink.stats.entry("tie_band_nudges".to_string()).or_default() += sink.exec.tie_skips;
+    let mut f = File::create(format!("{prefix}.stats")).unwrap();
+    writeln!(f, "lines {}", sink.lines).unwrap();
+    writeln!(f, "cases {}", sink.cases).unwrap();
+    for (k, v) in &sink.stats {
+        writeln!(f, "{k} {v}").unwrap();
+    }
+}
+
 fn run_suite(suite: &str, seed: u64, thorough: bool, out: &str, shards: usize) {
     std::fs::create_dir_all(out).unwrap();
-    let handles: Vec<_> = (0..shards)
+    let exe = std::env::current_exe().unwrap();
+    let children: Vec<_> = (0..shards)
         .map(|shard| {
-            let suite = suite.to_string();
-            let out = out.to_string();
-            std::thread::Builder::new()
-                .stack_size(64 << 20)
-                .spawn(move || {
-                    let prefix = format!("{out}/{suite}.{shard}");
-                    let mut sink = Sink::new(&prefix);
-                    let tier = gen::Tier { thorough };
-                    {
-                        let mut emit = |line: String| sink.feed(line);
-                        match suite.as_str() {
-                            "pair" => gen::gen_pair(seed, &tier, shard, shards, &mut emit),
-                            "apply" => gen::gen_apply(seed, &tier, shard, shards, &mut emit),
-                            "node" => gen::gen_node(seed, &tier, shard, shards, &mut emit),
-                            "wire" => gen::gen_wire(seed, &tier, shard, shards, &mut emit),
-                            "fd" => gen::gen_fd(seed, &tier, shard, shards, &mut emit),
-                            "server" => gen::gen_server(seed, &tier, shard, shards, &mut emit),
-                            "udp" => gen::gen_udp(seed, &tier, shard, shards, &mut emit),
-                            "select" => gen::gen_select(seed, &tier, shard, shards, &mut emit),
-                            "listener" => gen::gen_listener(seed, &tier, shard, shards, &mut emit),
-                            "cluster" => gen::gen_cluster(seed, &tier, shard, shards, &mut emit),
-                            "catchup" => gen::gen_catchup(seed, &tier, shard, shards, &mut emit),
-                            "mtu" => gen::gen_mtu(seed, &tier, shard, shards, &mut emit),
-                            _ => usage(),
-                        }
-                    }
-                    {
-                        let mut mf = File::create(format!("{prefix}.monitor")).unwrap();
-                        for h in &sink.exec.hits {
-                            // add the shard to the record
-                            let h = h.replacen('{', &format!("{{\"shard\": {shard}, "), 1);
-                            writeln!(mf, "{h}").unwrap();
-                        }
-                    }
-                    sink.model_in.flush().unwrap();
-                    sink.impl_out.flush().unwrap();
-                    sink.raw.flush().unwrap();
-                    *sink.stats.entry("tie_band_nudges".to_string()).or_default() += sink.exec.tie_skips;
-                    (sink.stats, sink.lines, sink.cases)
-                })
-                .unwrap()
+            std::process::Command::new(&exe)
+                .args([
+                    "shard",
+                    suite,
+                    &seed.to_string(),
+                    if thorough { "thorough" } else { "quick" },
+                    out,
+                    &shard.to_string(),
+                    &shards.to_string(),
+                ])
+                .stderr(std::process::Stdio::piped())
+                .spawn()
+                .expect("cannot start a shard process")
         })
         .collect();
     let mut stats: BTreeMap<String, u64> = BTreeMap::new();
-    let mut lines = 0;
-    let mut cases = 0;
-    for h in handles {
-        let (s, l, c) = h.join().unwrap();
-        for (k, v) in s {
-            *stats.entry(k).or_default() += v;
+    let mut lines = 0u64;
+    let mut cases = 0u64;
+    for (shard, child) in children.into_iter().enumerate() {
+        let outp = child.wait_with_output().expect("cannot wait for a shard process");
+        let prefix = format!("{out}/{suite}.{shard}");
+        if !outp.status.success() {
+            // the process died while executing the last raw line
+            let raw = std::fs::read_to_string(format!("{prefix}.raw")).unwrap_or_default();
+            let mut case = String::from("?");
+            let mut last = String::new();
+            for l in raw.lines() {
+                if let Some(rest) = l.strip_prefix("(case ") {
+                    case = rest.trim_end_matches(')').to_string();
+                }
+                last = l.to_string();
+            }
+            let err = String::from_utf8_lossy(&outp.stderr);
+            let err = err.lines().rev().find(|l| !l.trim().is_empty()).unwrap_or("").to_string();
+            let detail = format!(
+                "the process running the real code died ({}; last message: {}) while executing {}",
+                outp.status,
+                &err[..err.len().min(200)],
+                &last[..last.len().min(600)]
+            );
+            let mut mf = std::fs::OpenOptions::new().create(true).append(true).open(format!("{prefix}.monitor")).unwrap();
+            writeln!(
+                mf,
+                "{{\"shard\": {shard}, \"property\": \"ANY\", \"signature\": \"process-abort\", \"case\": \"{}\", \"detail\": {:?}}}",
+                case, detail
+            )
+            .unwrap();
+            // keep model input and implementation output line-aligned
+            let mi = std::fs::read_to_string(format!("{prefix}.model.in")).unwrap_or_default();
+            let io = std::fs::read_to_string(format!("{prefix}.impl.out")).unwrap_or_default();
+            let n = mi.lines().count().min(io.lines().count());
+            let cut = |t: &str| t.lines().take(n).map(|l| format!("{l}\n")).collect::<String>();
+            std::fs::write(format!("{prefix}.model.in"), cut(&mi)).unwrap();
+            std::fs::write(format!("{prefix}.impl.out"), cut(&io)).unwrap();
+            lines += n as u64;
+            continue;
         }
-        lines += l;
-        cases += c;
+        if let Ok(t) = std::fs::read_to_string(format!("{prefix}.stats")) {
+            for l in t.lines() {
+                let Some((k, v)) = l.rsplit_once(' ') else { continue };
+                let v: u64 = v.parse().unwrap_or(0);
+                match k {
+                    "lines" => lines += v,
+                    "cases" => cases += v,
+                    _ => *stats.entry(k.to_string()).or_default() += v,
+                }
+            }
+        }
     }
     let mut f = File::create(format!("{out}/{suite}.stats.json")).unwrap();
     let body: Vec<String> = stats.iter().map(|(k, v)| format!("\"{k}\": {v}")).collect();
@@ -196,6 +262,22 @@ fn main() {
                 }
             }
             run_suite(&suite, seed, thorough, &out, shards);
+        }
+        "shard" => {
+            // shard <suite> <seed> <tier> <out> <shard> <shards>
+            if args.len() != 8 {
+                usage();
+            }
+            let t = std::thread::Builder::new()
+                .stack_size(64 << 20)
+                .spawn({
+                    let a = args.clone();
+                    move || run_shard(&a[2], a[3].parse().unwrap(), a[4] == "thorough", &a[5], a[6].parse().unwrap(), a[7].parse().unwrap())
+                })
+                .unwrap();
+            if t.join().is_err() {
+                std::process::exit(3);
+            }
         }
         "exec" => {
             if args.len() != 5 {
